@@ -857,6 +857,21 @@ RUNS_READ = dict(region='runs_read', file='cmdline/state.c', scope="\t\tif (c ==
                  prologue='\tuint32_t v_idx;\n\tint c, ret;')
 
 
+FREC_WRITE = dict(region='frec_write', file='cmdline/state.c', begin='size = file->size;', include_begin=True, end='/* for all the blocks of the file */', end_first_after=True, max_lines=30, expect_loops=0,
+                  proto='static void *region_frec_write(struct snapraid_disk *disk, struct snapraid_file *file, STREAM *f, void *context)',
+                  prologue='\tuint64_t size;\n\tuint64_t mtime_sec;\n\tint32_t mtime_nsec;\n\tuint64_t inode;', epilogue='\treturn 0;')
+FREC_READ = dict(region='frec_read', file='cmdline/state.c', scope="\t\tif (c == 'f') {", begin='ret = sgetb64(f, &v_size);', include_begin=True, end='/* allocate the file */', end_first_after=True, max_lines=80, expect_loops=0,
+                 proto='static void region_frec_read(struct snapraid_state *state, STREAM *f, const char *path, block_off_t blockmax, uint64_t *v_size_p, uint64_t *v_mtime_sec_p, uint32_t *v_mtime_nsec_p, uint64_t *v_inode_p, char *sub_out)',
+                 prologue='\tint ret;\n\tuint64_t v_size, v_mtime_sec, v_inode;\n\tuint32_t v_mtime_nsec;\n\tchar sub[PATH_MAX];',
+                 epilogue='\t*v_size_p = v_size; *v_mtime_sec_p = v_mtime_sec; *v_mtime_nsec_p = v_mtime_nsec; *v_inode_p = v_inode;\n\tsub_out[0] = sub[0]; sub_out[1] = sub[1]; sub_out[2] = sub[2]; sub_out[3] = sub[3];')
+
+
+def frecord_obs():
+    return [Ob('state.f_record.header.roundtrip', 'harness/h_frecord.c', 'h_frecord', inject=[FREC_WRITE, FREC_READ], unwind=6, small_path=True, timeout=900, mem=6, cost=4, replay=False,
+               functions=["state_write_content: region 'f' record header fields (cmdline/state.c, extracted mechanically)", "state_read_content: region 'f' record header fields (cmdline/state.c, extracted mechanically)"],
+               note='every 64-bit size / modification time / inode, every nanosecond value incl. the invalid marker; writer and reader connected through a typed event stream (byte / 32-bit / 64-bit / string)')]
+
+
 def blockruns_obs():
     return [Ob('state.f_record.blockruns.roundtrip', 'harness/h_blockruns.c', 'h_blockruns', inject=[RUNS_WRITE, RUNS_READ], unwind=6, small_path=True, timeout=1200, mem=8, cost=10, kind='bounded',
                bound='files of at most 2 blocks, hash size 4', replay=False,
@@ -865,7 +880,7 @@ def blockruns_obs():
 
 
 def c10(tier, seed):
-    return stream_obs(['h_rt32', 'h_rt64', 'h_rtle32', 'h_rtbs']) + staterec_obs(tier) + blockruns_obs()
+    return stream_obs(['h_rt32', 'h_rt64', 'h_rtle32', 'h_rtbs']) + staterec_obs(tier) + blockruns_obs() + frecord_obs()
 
 
 PROPS = {
@@ -1075,7 +1090,7 @@ def c08(tier, seed):
 def c16(tier, seed):
     """format stability = every constant / encoding is pinned to a definition that is not in the repo"""
     c17 = [o for o in PROPS['C17']['obligations'](tier, seed) if o.name in ('parity.split_find.contract', 'parity.split_find.lemma')]
-    return table_obs(tier) + crc_obs(tier) + stream_obs(['h_sgetb32', 'h_sgetb64', 'h_sgetble32', 'h_sgetbs', 'h_rt32', 'h_rt64', 'h_rtle32', 'h_rtbs']) + staterec_obs(tier) + elem_obs(tier) + c17 + hash_obs(tier) + main_obs()[:1]
+    return table_obs(tier) + crc_obs(tier) + stream_obs(['h_sgetb32', 'h_sgetb64', 'h_sgetble32', 'h_sgetbs', 'h_rt32', 'h_rt64', 'h_rtle32', 'h_rtbs']) + staterec_obs(tier) + elem_obs(tier) + c17 + hash_obs(tier) + main_obs()[:1] + frecord_obs() + blockruns_obs()
 
 
 def c04(tier, seed):
